@@ -5,6 +5,8 @@ import F3.Proofs.CodecCbor
 import F3.Proofs.CodecAlloc
 import F3.Gen.Schema
 import F3.Proofs.CodecDemo
+import F3.Proofs.CodecCollision
+import F3.Proofs.CodecHashLen
 /-!
 # C14 — Encodings: signed bytes bind every field, chain keys agree, codecs round-trip
 
@@ -13,9 +15,28 @@ Models: `F3.Payload` (signing payload, tipset, VRF input, chain key), `F3.Merkle
 re-extracted from the Go struct definitions, cborgen tags and generated limits on every run. The
 driver `Driver/Codec.lean` executes these same definitions against the implementation.
 
-Hash functions are parameters. `HashOK H` (keccak-256) and `CidHashOK B` (blake2b-256) say:
-collision-free, 32-byte output, (keccak) never the zero digest. `tree_inj_or_collision` gives the
-collision-extraction form that needs no such hypothesis.
+Hash functions are parameters (`H` = keccak-256 for the merkle tree, `B` = blake2b-256 for the
+tipset-key CID). **No theorem that is meant to apply to the real code assumes anything false of them.**
+"The key determines the chain" is stated as a *collision-resistance reduction*: two different chains
+with the same key (two different payloads with the same signed bytes) **exhibit**, among the finitely
+many strings the two computations actually hashed (`F3.HashInputs.hashed`, `keyHashedH`, `keyHashedB`),
+either two different strings with the same digest, or a string with the all-zero digest (which
+merkle.go uses as the empty-subtree marker and chain.go as the key of the zero chain), or a digest
+whose length is not 32 (impossible for the executable hashes: `keccak256_length`, `blake2b256_length`).
+These are the primary results: `tree_collision_extract`, `tree_find_collision` (the colliding pair is
+*computed* by `findCollision`), `tipset_collision_extract`, `chainKey_collision_extract`,
+`signed_bytes_collision_extract`, and their instances at the executable hashes the driver runs
+(`chainKey_collision_extract_real`, `signed_bytes_collision_extract_real`).
+
+`tipset_inj`, `tree_inj`, `chainKey_inj`, `signed_bytes_sensitive` are kept as **idealised-hash
+corollaries**: they assume `HashOK H` / `CidHashOK B`, i.e. *global injectivity* of a function with
+32-byte output, which no real hash (and in particular neither executable hash) satisfies; the witness
+`demoHash` exists only because `Bytes = List Nat` has non-byte elements. They are derived from the
+reductions (injective ⇒ no collision in the list ⇒ equality) and say what the encoding *layout* achieves
+once the hash is taken out of the picture. `tree_inj_or_collision` is kept for reference only: its
+alternatives quantify over all strings and are therefore trivially true of every real hash.
+
+Key agreement (`batch_eq_tree`, `keys_agree`) holds for every function `H`, `B` whatsoever.
 
 Runtime sub-claim NOT proved here (validated by the malformed stream of `h_codec` only): that the
 *Go* decoders and zstd do not panic and that the Go allocator's measured total stays below
@@ -23,7 +44,8 @@ Runtime sub-claim NOT proved here (validated by the malformed stream of `h_codec
 `make` requests of the decoder model, which mirrors the generated code's check-then-allocate order.
 -/
 namespace F3.Props.C14
-open F3.Codec F3.Merkle F3.Payload F3.Cbor
+open F3.Codec F3.Merkle F3.Payload F3.Cbor F3.HashInputs
+open F3.Codec.Hash (keccak256 blake2b256)
 
 /-! ## (a) what is signed -/
 
@@ -63,10 +85,29 @@ theorem payload_not_jointly_injective :
   · decide
   · decide
 
-/-- `TipSet.MarshalForSigning` determines epoch, commitments, tipset key and power-table CID. -/
+/-- `TipSet.MarshalForSigning`, reduction form (no hypothesis on the CID hash `B`): equal bytes give equal
+epoch and commitments outright, and equal tipsets (key and power-table CID too) unless blake2b is
+exhibited to fail on the two tipset keys: the two CBOR-encoded keys are different strings with the
+same digest, or one of their digests is not 32 bytes long. The key enters the signed bytes only
+through its CID, so this is the best possible. -/
+theorem tipset_collision_extract (B : Bytes → Bytes) {s t : TipSet} (hs : s.WF) (ht : t.WF)
+    (h : tipsetBytes B s = tipsetBytes B t) :
+    s.epoch = t.epoch ∧ s.commitments = t.commitments ∧
+    (s = t ∨
+     (tsKeyPreimage s.key ≠ tsKeyPreimage t.key ∧ B (tsKeyPreimage s.key) = B (tsKeyPreimage t.key)) ∨
+     (B (tsKeyPreimage s.key)).length ≠ 32 ∨ (B (tsKeyPreimage t.key)).length ≠ 32) :=
+  F3.HashInputs.tipset_extract B hs ht h
+
+/-- Idealised-hash corollary of `tipset_collision_extract` (`CidHashOK B` = globally injective with
+32-byte output; false of every real hash): `TipSet.MarshalForSigning` determines epoch, commitments,
+tipset key and power-table CID. -/
 theorem tipset_inj {B : Bytes → Bytes} (hB : CidHashOK B) {s t : TipSet} (hs : s.WF) (ht : t.WF)
-    (h : tipsetBytes B s = tipsetBytes B t) : s = t :=
-  F3.Payload.tipset_inj hB hs ht h
+    (h : tipsetBytes B s = tipsetBytes B t) : s = t := by
+  rcases (tipset_collision_extract B hs ht h).2.2 with e | ⟨hne, he⟩ | hl | hl
+  · exact e
+  · exact absurd (hB.inj _ _ he) hne
+  · exact absurd (hB.len _) hl
+  · exact absurd (hB.len _) hl
 
 /-- The VRF input determines beacon, instance and round for a fixed network name. -/
 theorem vrf_inj_fixed_net {v w : VrfInput} (hv : v.WF) (hw : w.WF) (hnet : v.net = w.net)
@@ -98,35 +139,119 @@ theorem batch_eq_tree (H : Bytes → Bytes) (vs : List Bytes) (k : Nat) (hk : k 
     (batchTree H vs)[k]? = some (tree H (vs.take (k + 1))) :=
   batchTree_get H vs k hk
 
-/-- The root determines the list: number, order and content of the values. -/
-theorem tree_inj {H : Bytes → Bytes} (hH : HashOK H) (vs ws : List Bytes) (h : tree H vs = tree H ws) : vs = ws :=
-  F3.Merkle.tree_inj H hH vs ws h
+/-- **Merkle reduction** (no hypothesis on `H`). If two lists have the same root then they are the same
+list — same number, order and content of values — or the hash is exhibited to fail *on the strings the
+two computations hashed* (`hashed H vs`: one `1 :: value` per leaf, one `0 :: left ++ right` per
+internal node): two different hashed strings with the same digest, a hashed string with the all-zero
+digest (the empty-subtree marker), or a digest that is not 32 bytes long. -/
+theorem tree_collision_extract (H : Bytes → Bytes) (vs ws : List Bytes) (h : tree H vs = tree H ws) :
+    vs = ws ∨
+    (∃ a ∈ hashed H vs, ∃ b ∈ hashed H ws, a ≠ b ∧ H a = H b) ∨
+    (∃ a ∈ hashed H vs ++ hashed H ws, H a = zeroDigest) ∨
+    (∃ a ∈ hashed H vs ++ hashed H ws, (H a).length ≠ 32) :=
+  F3.HashInputs.tree_extract H vs ws h
 
-/-- The same without idealising the hash: equal roots of different lists yield a hash collision, a
-non-32-byte digest or a preimage of the zero digest. -/
+/-- The reduction is effective: for two *different* lists with the same root, if none of the hashed
+strings has the zero digest or a digest of the wrong length (finitely many decidable checks), the
+search `findCollision` over the two lists of hashed strings **returns** a collision. -/
+theorem tree_find_collision (H : Bytes → Bytes) (vs ws : List Bytes) (h : tree H vs = tree H ws) (hne : vs ≠ ws)
+    (hz : ∀ a ∈ hashed H vs ++ hashed H ws, H a ≠ zeroDigest)
+    (hlen : ∀ a ∈ hashed H vs ++ hashed H ws, (H a).length = 32) :
+    ∃ a b, findCollision H (hashed H vs) (hashed H ws) = some (a, b) ∧
+      a ∈ hashed H vs ∧ b ∈ hashed H ws ∧ a ≠ b ∧ H a = H b := by
+  rcases tree_collision_extract H vs ws h with e | hc | ⟨a, ha, hza⟩ | ⟨a, ha, hla⟩
+  · exact absurd e hne
+  · exact findCollision_of_collision H hc
+  · exact absurd hza (hz a ha)
+  · exact absurd (hlen a ha) hla
+
+/-- Whatever `findCollision` returns is a collision between the two lists (soundness of the search). -/
+theorem find_collision_sound (H : Bytes → Bytes) (X Y : List Bytes) (a b : Bytes)
+    (h : findCollision H X Y = some (a, b)) : a ∈ X ∧ b ∈ Y ∧ a ≠ b ∧ H a = H b :=
+  findCollision_sound H h
+
+/-- Idealised-hash corollary of `tree_collision_extract` (`HashOK H` = globally injective, 32-byte,
+never zero; false of every real hash): the root determines the list. -/
+theorem tree_inj {H : Bytes → Bytes} (hH : HashOK H) (vs ws : List Bytes) (h : tree H vs = tree H ws) : vs = ws := by
+  rcases tree_collision_extract H vs ws h with e | ⟨a, _, b, _, hne, he⟩ | ⟨a, _, hz⟩ | ⟨a, _, hl⟩
+  · exact e
+  · exact absurd (hH.inj a b he) hne
+  · exact absurd hz (hH.nonzero a)
+  · exact absurd (hH.len a) hl
+
+/-- Weak form kept for reference (corollary of `tree_collision_extract`): the alternatives range over
+*all* strings, so for every real hash the second one holds by counting and the statement carries no
+information. Use `tree_collision_extract` / `tree_find_collision`. -/
 theorem tree_inj_or_collision (H : Bytes → Bytes) (vs ws : List Bytes) (h : tree H vs = tree H ws) :
     vs = ws ∨ (∃ a b, a ≠ b ∧ H a = H b) ∨ (∃ a, (H a).length ≠ 32) ∨ (∃ a, H a = zeroDigest) := by
-  by_cases h1 : ∃ a b, a ≠ b ∧ H a = H b
-  · exact Or.inr (Or.inl h1)
-  · by_cases h2 : ∃ a, (H a).length ≠ 32
-    · exact Or.inr (Or.inr (Or.inl h2))
-    · by_cases h3 : ∃ a, H a = zeroDigest
-      · exact Or.inr (Or.inr (Or.inr h3))
-      · left
-        refine F3.Merkle.tree_inj H ⟨?_, ?_, ?_⟩ vs ws h
-        · intro a b hab; by_contra hne; exact h1 ⟨a, b, hne, hab⟩
-        · intro a; by_contra hne; exact h2 ⟨a, hne⟩
-        · intro a hz; exact h3 ⟨a, hz⟩
+  rcases tree_collision_extract H vs ws h with e | ⟨a, _, b, _, hne, he⟩ | ⟨a, _, hz⟩ | ⟨a, _, hl⟩
+  · exact Or.inl e
+  · exact Or.inr (Or.inl ⟨a, b, hne, he⟩)
+  · exact Or.inr (Or.inr (Or.inr ⟨a, hz⟩))
+  · exact Or.inr (Or.inr (Or.inl ⟨a, hl⟩))
 
 /-- `merkle.Tree` never reaches its panic for the depth it computes. -/
 theorem tree_never_panics (vs : List Bytes) : panics (depth vs.length) vs = false :=
   F3.Merkle.tree_never_panics vs
 
-/-- The chain key determines the chain: length, order, and epoch / key / power-table CID / commitments
-of every tipset. -/
+/-- **Chain-key reduction** (no hypothesis on `H`, `B`). Two chains with the same `ECChain.Key()` are the
+same chain — length, order, and epoch / key / power-table CID / commitments of every tipset — or
+`HashBreak H B c d` holds: among the strings hashed by the two key computations (`keyHashedH`: the
+leaf strings `1 :: TipSet.MarshalForSigning` and node strings of the merkle tree; `keyHashedB`: the
+CBOR-encoded tipset keys that go into the tipset CIDs) there is a keccak collision between the two
+sides, a string with the zero keccak digest, a blake2b collision between the two sides, or a digest
+of the wrong length. -/
+theorem chainKey_collision_extract (H B : Bytes → Bytes) (c d : List TipSet)
+    (hc : ∀ t ∈ c, t.WF) (hd : ∀ t ∈ d, t.WF) (h : chainKey H B c = chainKey H B d) :
+    c = d ∨
+    Collision H (keyHashedH H B c) (keyHashedH H B d) ∨
+    ZeroPreimage H (keyHashedH H B c ++ keyHashedH H B d) ∨
+    Collision B (keyHashedB c) (keyHashedB d) ∨
+    WrongLen H (keyHashedH H B c ++ keyHashedH H B d) ∨
+    WrongLen B (keyHashedB c ++ keyHashedB d) :=
+  F3.HashInputs.chainKey_extract H B c d hc hd h
+
+/-- The chain-key reduction at the hashes the driver executes (`F3.Codec.Hash.keccak256`,
+`blake2b256`; their output length is a lemma): two *different* chains with the same key make
+`findCollision` return a keccak-256 collision among the hashed merkle strings, or a blake2b-256
+collision among the encoded tipset keys, or one of the hashed merkle strings is a keccak-256 preimage
+of the all-zero digest. -/
+theorem chainKey_collision_extract_real (c d : List TipSet) (hc : ∀ t ∈ c, t.WF) (hd : ∀ t ∈ d, t.WF)
+    (h : chainKey keccak256 blake2b256 c = chainKey keccak256 blake2b256 d) (hne : c ≠ d) :
+    (∃ a b, findCollision keccak256 (keyHashedH keccak256 blake2b256 c) (keyHashedH keccak256 blake2b256 d) = some (a, b) ∧
+        a ≠ b ∧ keccak256 a = keccak256 b) ∨
+    (∃ a b, findCollision blake2b256 (keyHashedB c) (keyHashedB d) = some (a, b) ∧
+        a ≠ b ∧ blake2b256 a = blake2b256 b) ∨
+    (∃ a ∈ keyHashedH keccak256 blake2b256 c ++ keyHashedH keccak256 blake2b256 d, keccak256 a = zeroDigest) := by
+  rcases chainKey_collision_extract keccak256 blake2b256 c d hc hd h with e | hb
+  · exact absurd e hne
+  · rcases hashBreak_real hb with hk | hz | hbl
+    · obtain ⟨a, b, hf, _, _, hab, he⟩ := findCollision_of_collision keccak256 hk
+      exact Or.inl ⟨a, b, hf, hab, he⟩
+    · exact Or.inr (Or.inr hz)
+    · obtain ⟨a, b, hf, _, _, hab, he⟩ := findCollision_of_collision blake2b256 hbl
+      exact Or.inr (Or.inl ⟨a, b, hf, hab, he⟩)
+
+/-- The strings in question are genuine byte strings: for chains whose tipsets carry byte values
+(every element `< 256`) and hashes with byte output — in particular the executable ones — every string
+hashed by the key computation has all its elements `< 256`. So an exhibited collision is a collision
+of the real function on real inputs, not an artefact of `Bytes = List Nat`. -/
+theorem hashed_inputs_are_bytes (c : List TipSet)
+    (hc : ∀ t ∈ c, IsBytes t.key ∧ IsBytes t.commitments ∧ IsBytes t.powerTable) :
+    (∀ a ∈ keyHashedH keccak256 blake2b256 c, IsBytes a) ∧ (∀ a ∈ keyHashedB c, IsBytes a) :=
+  keyHashed_isBytes keccak256 blake2b256 keccak256_isBytes blake2b256_isBytes c hc
+
+/-- The executable hashes return 32 bytes on every input. -/
+theorem real_hash_length (a : Bytes) : (keccak256 a).length = 32 ∧ (blake2b256 a).length = 32 :=
+  ⟨keccak256_length a, blake2b256_length a⟩
+
+/-- Idealised-hash corollary of `chainKey_collision_extract` (`HashOK H`, `CidHashOK B`: globally
+injective; false of every real hash): the chain key determines the chain. -/
 theorem chainKey_inj {H B : Bytes → Bytes} (hH : HashOK H) (hB : CidHashOK B) (c d : List TipSet)
-    (hc : ∀ t ∈ c, t.WF) (hd : ∀ t ∈ d, t.WF) (h : chainKey H B c = chainKey H B d) : c = d :=
-  F3.Payload.chainKey_inj hH hB c d hc hd h
+    (hc : ∀ t ∈ c, t.WF) (hd : ∀ t ∈ d, t.WF) (h : chainKey H B c = chainKey H B d) : c = d := by
+  rcases chainKey_collision_extract H B c d hc hd h with e | hb
+  · exact e
+  · exact absurd hb (not_hashBreak_of_ok hH hB c d)
 
 /-- Direct, batch and cached keys agree: entry `i` of `KeysForPrefixes()` — which is also what
 `AllPrefixes()` stores in the key cache of its `i`-th prefix — is `Prefix(i).Key()`. -/
@@ -134,10 +259,74 @@ theorem keys_agree (H B : Bytes → Bytes) (c : List TipSet) (i : Nat) (hi : i <
     (keysForPrefixes H B c)[i]? = some (chainKey H B (chainPrefix c i)) :=
   keysForPrefixes_get H B c i hi
 
-/-- The complete signed bytes (`Payload.MarshalForSigning`) as a function of network, phase, round,
-instance, supplemental data and the *content of the chain*: two inputs that differ anywhere — in any
-tipset's epoch, key, power-table CID or commitments, in the chain's length or order, or in any scalar —
-and that agree on the network name or on the CID length, are signed differently. -/
+/-- Phase, round, instance and commitments of the complete signed bytes (`Payload.MarshalForSigning`)
+sit at fixed offsets after the network name: for a fixed network name they are determined by the
+signed bytes whatever the hashes and whatever the chains. -/
+theorem signed_bytes_scalars_fixed_net (H B : Bytes → Bytes)
+    (net : Bytes) (ph1 ph2 r1 r2 i1 i2 : Nat) (cm1 cm2 pt1 pt2 : Bytes) (c1 c2 : List TipSet)
+    (hph : ph1 < 256 ∧ ph2 < 256) (hr : r1 < 2 ^ 64 ∧ r2 < 2 ^ 64) (hi : i1 < 2 ^ 64 ∧ i2 < 2 ^ 64)
+    (hcm : cm1.length = 32 ∧ cm2.length = 32)
+    (h : signedBytes H B net ph1 r1 i1 cm1 pt1 c1 = signedBytes H B net ph2 r2 i2 cm2 pt2 c2) :
+    ph1 = ph2 ∧ r1 = r2 ∧ i1 = i2 ∧ cm1 = cm2 := by
+  unfold signedBytes at h
+  obtain ⟨e1, e2, e3, e4, _⟩ := payload_scalars_fixed_net
+    (p := ⟨net, ph1, r1, i1, cm1, chainKey H B c1, pt1⟩) (q := ⟨net, ph2, r2, i2, cm2, chainKey H B c2, pt2⟩)
+    hph.1 hph.2 hr.1 hr.2 hi.1 hi.2 hcm.1 hcm.2 rfl h
+  exact ⟨e1, e2, e3, e4⟩
+
+/-- **Signed-payload reduction.** The complete signed bytes as a function of network, phase, round,
+instance, supplemental data and the *content of the chain*. For a fixed network name and a merkle hash
+with 32-byte output (a lemma for the executable keccak-256, the `Digest` array type in Go): equal
+signed bytes give equal phase, round, instance, commitments and power-table CID, and equal chains —
+every tipset's epoch, key, power-table CID and commitments, the chain's length and order — unless
+`HashBreak H B c1 c2` is exhibited among the strings hashed for the two chain keys. -/
+theorem signed_bytes_collision_extract (H B : Bytes → Bytes) (hlen : ∀ a, (H a).length = 32)
+    (net : Bytes) (ph1 ph2 r1 r2 i1 i2 : Nat) (cm1 cm2 pt1 pt2 : Bytes) (c1 c2 : List TipSet)
+    (hph : ph1 < 256 ∧ ph2 < 256) (hr : r1 < 2 ^ 64 ∧ r2 < 2 ^ 64) (hi : i1 < 2 ^ 64 ∧ i2 < 2 ^ 64)
+    (hcm : cm1.length = 32 ∧ cm2.length = 32) (hc1 : ∀ t ∈ c1, t.WF) (hc2 : ∀ t ∈ c2, t.WF)
+    (h : signedBytes H B net ph1 r1 i1 cm1 pt1 c1 = signedBytes H B net ph2 r2 i2 cm2 pt2 c2) :
+    ph1 = ph2 ∧ r1 = r2 ∧ i1 = i2 ∧ cm1 = cm2 ∧ pt1 = pt2 ∧ (c1 = c2 ∨ HashBreak H B c1 c2) :=
+  signed_extract_fixed_net H B hlen net ph1 ph2 r1 r2 i1 i2 cm1 cm2 pt1 pt2 c1 c2 hph hr hi hcm hc1 hc2 h
+
+/-- The general form, without any hypothesis on the hashes and with the side condition under which the
+payload layout is injective at all (same network name, or power-table CIDs of equal length): equal
+signed bytes give equal inputs — network, phase, round, instance, commitments, power-table CID, chain —
+or `HashBreak H B c1 c2`. -/
+theorem signed_bytes_collision_extract_side (H B : Bytes → Bytes)
+    (net1 net2 : Bytes) (ph1 ph2 r1 r2 i1 i2 : Nat) (cm1 cm2 pt1 pt2 : Bytes) (c1 c2 : List TipSet)
+    (hph : ph1 < 256 ∧ ph2 < 256) (hr : r1 < 2 ^ 64 ∧ r2 < 2 ^ 64) (hi : i1 < 2 ^ 64 ∧ i2 < 2 ^ 64)
+    (hcm : cm1.length = 32 ∧ cm2.length = 32) (hc1 : ∀ t ∈ c1, t.WF) (hc2 : ∀ t ∈ c2, t.WF)
+    (hside : net1 = net2 ∨ pt1.length = pt2.length)
+    (h : signedBytes H B net1 ph1 r1 i1 cm1 pt1 c1 = signedBytes H B net2 ph2 r2 i2 cm2 pt2 c2) :
+    (net1, ph1, r1, i1, cm1, pt1, c1) = (net2, ph2, r2, i2, cm2, pt2, c2) ∨ HashBreak H B c1 c2 :=
+  signed_extract H B net1 net2 ph1 ph2 r1 r2 i1 i2 cm1 cm2 pt1 pt2 c1 c2 hph hr hi hcm hc1 hc2 hside h
+
+/-- The signed-payload reduction at the hashes the driver executes: two payloads for the same network
+with the same signed bytes agree on phase, round, instance, commitments and power-table CID, and on
+the chain unless a keccak-256 collision, a keccak-256 preimage of the zero digest, or a blake2b-256
+collision is exhibited among the strings hashed for the two chain keys. -/
+theorem signed_bytes_collision_extract_real
+    (net : Bytes) (ph1 ph2 r1 r2 i1 i2 : Nat) (cm1 cm2 pt1 pt2 : Bytes) (c1 c2 : List TipSet)
+    (hph : ph1 < 256 ∧ ph2 < 256) (hr : r1 < 2 ^ 64 ∧ r2 < 2 ^ 64) (hi : i1 < 2 ^ 64 ∧ i2 < 2 ^ 64)
+    (hcm : cm1.length = 32 ∧ cm2.length = 32) (hc1 : ∀ t ∈ c1, t.WF) (hc2 : ∀ t ∈ c2, t.WF)
+    (h : signedBytes keccak256 blake2b256 net ph1 r1 i1 cm1 pt1 c1 =
+         signedBytes keccak256 blake2b256 net ph2 r2 i2 cm2 pt2 c2) :
+    ph1 = ph2 ∧ r1 = r2 ∧ i1 = i2 ∧ cm1 = cm2 ∧ pt1 = pt2 ∧
+    (c1 = c2 ∨
+     Collision keccak256 (keyHashedH keccak256 blake2b256 c1) (keyHashedH keccak256 blake2b256 c2) ∨
+     ZeroPreimage keccak256 (keyHashedH keccak256 blake2b256 c1 ++ keyHashedH keccak256 blake2b256 c2) ∨
+     Collision blake2b256 (keyHashedB c1) (keyHashedB c2)) := by
+  obtain ⟨e1, e2, e3, e4, e5, hc⟩ := signed_bytes_collision_extract keccak256 blake2b256 keccak256_length
+    net ph1 ph2 r1 r2 i1 i2 cm1 cm2 pt1 pt2 c1 c2 hph hr hi hcm hc1 hc2 h
+  refine ⟨e1, e2, e3, e4, e5, ?_⟩
+  rcases hc with e | hb
+  · exact Or.inl e
+  · exact Or.inr (hashBreak_real hb)
+
+/-- Idealised-hash corollary of `signed_bytes_collision_extract_side` (`HashOK H`, `CidHashOK B`:
+globally injective; false of every real hash): two inputs that differ anywhere — in any tipset's epoch,
+key, power-table CID or commitments, in the chain's length or order, or in any scalar — and that agree
+on the network name or on the CID length, are signed differently. -/
 theorem signed_bytes_sensitive {H B : Bytes → Bytes} (hH : HashOK H) (hB : CidHashOK B)
     (net1 net2 : Bytes) (ph1 ph2 r1 r2 i1 i2 : Nat) (cm1 cm2 pt1 pt2 : Bytes) (c1 c2 : List TipSet)
     (hph : ph1 < 256 ∧ ph2 < 256) (hr : r1 < 2 ^ 64 ∧ r2 < 2 ^ 64) (hi : i1 < 2 ^ 64 ∧ i2 < 2 ^ 64)
@@ -146,19 +335,10 @@ theorem signed_bytes_sensitive {H B : Bytes → Bytes} (hH : HashOK H) (hB : Cid
     (hside : net1 = net2 ∨ pt1.length = pt2.length) :
     signedBytes H B net1 ph1 r1 i1 cm1 pt1 c1 ≠ signedBytes H B net2 ph2 r2 i2 cm2 pt2 c2 := by
   intro h
-  unfold signedBytes at h
-  have w1 : SigInput.WF ⟨net1, ph1, r1, i1, cm1, chainKey H B c1, pt1⟩ :=
-    ⟨hph.1, hr.1, hi.1, hcm.1, chainKey_length hH c1⟩
-  have w2 : SigInput.WF ⟨net2, ph2, r2, i2, cm2, chainKey H B c2, pt2⟩ :=
-    ⟨hph.2, hr.2, hi.2, hcm.2, chainKey_length hH c2⟩
-  have heq : (⟨net1, ph1, r1, i1, cm1, chainKey H B c1, pt1⟩ : SigInput) = ⟨net2, ph2, r2, i2, cm2, chainKey H B c2, pt2⟩ := by
-    rcases hside with hn | hl
-    · exact F3.Payload.payload_inj_fixed_net w1 w2 hn h
-    · exact F3.Payload.payload_inj_cidlen w1 w2 hl h
-  simp only [SigInput.mk.injEq] at heq
-  obtain ⟨e1, e2, e3, e4, e5, e6, e7⟩ := heq
-  have ec := F3.Payload.chainKey_inj hH hB c1 c2 hc1 hc2 e6
-  exact hne (by rw [e1, e2, e3, e4, e5, e7, ec])
+  rcases signed_bytes_collision_extract_side H B net1 net2 ph1 ph2 r1 r2 i1 i2 cm1 cm2 pt1 pt2 c1 c2
+    hph hr hi hcm hc1 hc2 hside h with e | hb
+  · exact hne e
+  · exact not_hashBreak_of_ok hH hB c1 c2 hb
 
 /-! ## (c) codecs -/
 
@@ -282,7 +462,11 @@ theorem zstd_encode_within_cap (z : Zstd) (s : Schema) (v : Value) (c : Bytes) (
 
 /-! ## non-vacuity -/
 
-/-! an injective "hash" with 32-element, non-zero output exists in the model (`F3.Codec.demoHash`) -/
+/-! ### the idealised-hash corollaries
+
+An injective "hash" with 32-element, non-zero output exists in the model (`F3.Codec.demoHash`) only
+because `Bytes = List Nat` has infinitely many 32-element lists; this shows the hypotheses `HashOK` /
+`CidHashOK` of the idealised corollaries consistent, nothing more. -/
 
 example : HashOK demoHash :=
   ⟨fun a b h => by
@@ -299,6 +483,89 @@ example : CidHashOK demoHash :=
       simp only [demoHash, List.cons.injEq, and_true] at h
       exact Encodable.encode_injective (by omega),
    fun a => by simp [demoHash]⟩
+
+/-! ### the reductions at the executable hashes -/
+
+/-- `tree_find_collision` instantiated with the executable keccak-256: the length side condition is
+discharged by `keccak256_length`; what remains is "no hashed string has the zero digest", a finite
+decidable check on the two lists. -/
+example (vs ws : List Bytes) (h : tree keccak256 vs = tree keccak256 ws) (hne : vs ≠ ws)
+    (hz : ∀ a ∈ hashed keccak256 vs ++ hashed keccak256 ws, keccak256 a ≠ zeroDigest) :
+    ∃ a b, findCollision keccak256 (hashed keccak256 vs) (hashed keccak256 ws) = some (a, b) ∧
+      a ≠ b ∧ keccak256 a = keccak256 b := by
+  obtain ⟨a, b, hf, _, _, hab, he⟩ :=
+    tree_find_collision keccak256 vs ws h hne hz (fun a _ => keccak256_length a)
+  exact ⟨a, b, hf, hab, he⟩
+
+/-- the global hypothesis of `signed_bytes_collision_extract` holds of the executable keccak-256 -/
+example : ∀ a, (keccak256 a).length = 32 := keccak256_length
+
+/-! ### the reductions evaluated (toy hash, see `F3.Codec.toyHash`)
+
+The hypotheses "same root / same key / same signed bytes, different inputs" cannot be exhibited for
+keccak-256 or blake2b-256 — that would be a break of the hash — so the branch of the reductions that
+returns a collision is exercised with `toyHash`, whose collisions are known. -/
+
+/-- the global hypothesis of `signed_bytes_collision_extract` holds of the toy hash -/
+example : ∀ a, (toyHash a).length = 32 := by simp [toyHash]
+
+open F3.Codec.Demo
+
+/-- the tipsets used below are well-typed -/
+example : ∀ t ∈ [tsA, tsA', tsA'', tsB, tsB'], t.WF := by
+  intro t ht
+  simp only [List.mem_cons, List.not_mem_nil, or_false] at ht
+  rcases ht with rfl | rfl | rfl | rfl | rfl <;> exact ⟨by norm_num [tsA, tsA', tsA'', tsB, tsB'], by decide⟩
+
+/-- all hypotheses of `tree_find_collision` hold of a concrete pair of different lists, and the search
+returns the collision between the two leaf strings -/
+example :
+    tree toyHash [[1, 2], [3]] = tree toyHash [[2, 1], [3]] ∧ [[1, 2], [3]] ≠ [[2, 1], [3]] ∧
+    (∀ a ∈ hashed toyHash [[1, 2], [3]] ++ hashed toyHash [[2, 1], [3]], toyHash a ≠ zeroDigest) ∧
+    (∀ a ∈ hashed toyHash [[1, 2], [3]] ++ hashed toyHash [[2, 1], [3]], (toyHash a).length = 32) ∧
+    findCollision toyHash (hashed toyHash [[1, 2], [3]]) (hashed toyHash [[2, 1], [3]]) = some ([1, 1, 2], [1, 2, 1]) := by
+  decide +kernel
+
+/-- a change of length: one value against three gives different roots -/
+example : tree toyHash [[1, 2]] ≠ tree toyHash [[1, 2], [3], [4]] := by decide +kernel
+
+/-- two different chains (first tipset key `[1,2,3]` / `[3,2,1]`) with the same chain key: the
+hypotheses of `chainKey_collision_extract` hold and the exhibited failure is the collision of the CID
+hash on the two encoded tipset keys -/
+example :
+    chainKey toyHash toyHash [tsA, tsB] = chainKey toyHash toyHash [tsA', tsB] ∧ [tsA, tsB] ≠ [tsA', tsB] ∧
+    findCollision toyHash (keyHashedB [tsA, tsB]) (keyHashedB [tsA', tsB]) = some ([67, 1, 2, 3], [67, 3, 2, 1]) := by
+  decide +kernel
+
+/-- … and a pair that differs in a power-table CID: the exhibited failure is a collision of the merkle
+hash on the two leaf strings -/
+example :
+    chainKey toyHash toyHash [tsA, tsB] = chainKey toyHash toyHash [tsA'', tsB] ∧ [tsA, tsB] ≠ [tsA'', tsB] ∧
+    (findCollision toyHash (keyHashedH toyHash toyHash [tsA, tsB]) (keyHashedH toyHash toyHash [tsA'', tsB])).isSome = true ∧
+    findCollision toyHash (keyHashedB [tsA, tsB]) (keyHashedB [tsA'', tsB]) = none := by
+  decide +kernel
+
+/-- distinct chains whose keys differ (a changed tipset key; a changed length), and on which the
+decidable event `HashBreak` evaluates to false -/
+example :
+    chainKey toyHash toyHash [tsA, tsB] ≠ chainKey toyHash toyHash [tsA, tsB'] ∧
+    chainKey toyHash toyHash [tsA, tsB, tsA] ≠ chainKey toyHash toyHash [tsA, tsB] ∧
+    ¬ HashBreak toyHash toyHash [tsA, tsB] [tsA, tsB'] := by
+  decide +kernel
+
+/-- the hypotheses of `signed_bytes_collision_extract` hold of two payloads with different chains and the
+same signed bytes -/
+example :
+    signedBytes toyHash toyHash [102] 3 7 12 (List.replicate 32 1) [1, 113, 0, 0] [tsA, tsB] =
+    signedBytes toyHash toyHash [102] 3 7 12 (List.replicate 32 1) [1, 113, 0, 0] [tsA', tsB] ∧
+    HashBreak toyHash toyHash [tsA, tsB] [tsA', tsB] := by
+  decide +kernel
+
+/-- the hypothesis of `hashed_inputs_are_bytes` holds of a concrete chain -/
+example : ∀ t ∈ [tsA, tsB], IsBytes t.key ∧ IsBytes t.commitments ∧ IsBytes t.powerTable := by
+  unfold IsBytes; decide
+
+/-! ### well-typed inputs and codec values exist -/
 
 example : SigInput.WF ⟨[102], 3, 7, 12, List.replicate 32 1, List.replicate 32 2, [1, 113, 0, 0]⟩ :=
   ⟨by decide, by norm_num, by norm_num, by decide, by decide⟩
